@@ -938,3 +938,33 @@ def rule_forked_record_object(ctx):
                     r.ok(q, sample={"function": f.qualname, "fork": f"line {fk.lineno}", "working object": W, "fork and receiver-in-place": "mutually exclusive"})
     r.floor(n, 1, "routines that fork the record and choose a working object by separate tests")
     return r
+
+
+def rule_swap_precondition(ctx):
+    r = RuleResult(
+        "swap-precondition",
+        "swap_sites_with_compress ends by *storing* a record that names the swapped pair (or one of its sites) as the orthogonality centre; "
+        "that is only true if the centre was moved onto the pair before the two tensors were merged and re-split: the "
+        "`canonicalize_((i, j), info=info)` call is an unconditional statement that precedes the split — skipping it under some option "
+        "(e.g. for an exact swap) leaves the real centre elsewhere while the record says it is on the pair",
+    )
+    f = ctx.prog.func("quimb.tensor.tn1d.core", "TensorNetwork1DFlat.swap_sites_with_compress")
+    if f is None:
+        raise AnalysisError("swap-precondition: swap_sites_with_compress not found")
+    splits = [c for c in ast.walk(f.node) if isinstance(c, ast.Call) and isinstance(c.func, ast.Attribute) and c.func.attr == "split"]
+    stores = [x for x in ast.walk(f.node) if isinstance(x, ast.Assign) and any(isinstance(t, ast.Subscript) and const_value(t.slice, None) == "cur_orthog" for t in x.targets)]
+    if not splits or not stores:
+        raise AnalysisError("swap-precondition: split / record store not found in swap_sites_with_compress")
+    first_split = min(c.lineno for c in splits)
+    uncond = [st for st in f.node.body if isinstance(st, ast.Expr) and isinstance(st.value, ast.Call) and isinstance(st.value.func, ast.Attribute)
+              and st.value.func.attr in ("canonicalize_", "canonicalize") and any(k.arg == "info" for k in st.value.keywords) and st.lineno < first_split]
+    where = f"{f.module.relpath}:{first_split}"
+    if uncond:
+        r.ok("swap_sites_with_compress", sample={"centre moved onto the pair": src_of(uncond[0].value)[:50], "unconditional": True})
+    else:
+        cond = [c for c in ast.walk(f.node) if isinstance(c, ast.Call) and isinstance(c.func, ast.Attribute) and c.func.attr in ("canonicalize_", "canonicalize") and c.lineno < first_split]
+        r.bad(Finding("swap-precondition", "TensorNetwork1DFlat.swap_sites_with_compress",
+                      ("the centre is moved onto the pair only conditionally (line %d)" % cond[0].lineno if cond else "the centre is never moved onto the pair")
+                      + " before the split, but the record stored afterwards always names the pair: on the skipped path the real centre is elsewhere",
+                      where=where, operand="canonicalize"))
+    return r
